@@ -38,6 +38,19 @@ def verify_unit(name, repo, vacuity=False):
     res = run_verus(g.text, name)
     out = parse(res, g, name)
     attempts = 1
+    # ISOLATION: when rustc/Verus REJECT the generated file and every rejection lies inside extracted functions (constructs outside
+    # the subset, annotations that no longer fit the code), those functions are re-emitted as contract-only stubs and the unit is
+    # verified again: only their obligations are undecided, the rest of the unit keeps its verdict
+    rounds = 0
+    while out['status'] == 'error' and out.get('hard_fns') and None not in out['hard_fns'] and rounds < 3:
+        bad = set(out['hard_fns']) | set(g.stubbed)
+        g = generate(u, repo, vacuity=vacuity, stub_fns=bad)
+        for k in bad:
+            if not any(l.startswith(k + ': ') for l in g.lost):
+                g.lost.append('%s: rejected by the verifier front end' % k)
+        res = run_verus(g.text, name)
+        out = parse(res, g, name)
+        rounds += 1
     if out['status'] == 'rlimit':
         res = run_verus(g.text, name, rlimit=40)
         out = parse(res, g, name)
@@ -184,6 +197,7 @@ def main(argv):
     known = load_json(os.path.join(ROOT, 'known_findings.json'), {'findings': [], 'fixed': []})
 
     undecided, violations, known_hits = [], [], []
+    notes = []
     tainted = []   # obligations of this property inside a function that failed a DIFFERENT (not tagged) obligation
     obligations, discharged = {}, {}
     cov_items, cov_norms, trusted, not_covered, samples = [], [], [], [], []
@@ -195,8 +209,7 @@ def main(argv):
         smt_ms += out.get('smt_ms', 0)
         for k, v in out.get('times', {}).items():
             fn_ms[k] = round(v, 1)
-        for l in g.lost:
-            undecided.append('lost anchor: ' + l)
+        lost_notes = list(g.lost)
         for c in g.cheats_outside_prelude:
             undecided.append('assumption outside the prelude: ' + c)
         trusted += g.trusted
@@ -221,8 +234,20 @@ def main(argv):
             fnk = g.obligations.get(ob, {}).get('fn')
             if fnk:
                 failed_fns.setdefault(fnk, []).append((ob, diags))
+        # lost anchors / isolated functions: undecided only for properties that have obligations in those functions
+        for l in lost_notes:
+            fnk = l.split(': ', 1)[0]
+            if fnk in g.stubbed:
+                if any(v['fn'] == fnk for v in mine.values()):
+                    undecided.append('lost anchor: ' + l)
+                else:
+                    notes.append('isolated (not part of this property): ' + l)
+            else:
+                undecided.append('lost anchor: ' + l)
         for k, v in mine.items():
             obligations[k] = v
+            if v['fn'] in g.stubbed:
+                continue
             if k in out['failed']:
                 pass
             elif v['fn'] in failed_fns:
@@ -384,6 +409,7 @@ def main(argv):
             bounded=dict(note='BOUNDED stand-in (Kani/CBMC on the real unsafe code); not included in obligations/discharged', cmd=kani_cmd, harnesses=bounded) if bounded else None,
             explanation=cfg.get('explanation', ''),
             undecided=undecided,
+            isolated_functions=notes,
             known_findings=[h.get('what') for (h, _) in known_hits],
             witness=witness,
         ),
